@@ -408,6 +408,12 @@ class _FuncAnalysis:
                     return FRESH if fn.attr in ('copy', 'values', 'items') else FRESH_DEEP
                 if fn.attr in ('get', 'pop', 'setdefault'):
                     return self.elem_of(self.prov(fn.value, depth + 1))
+            nm_ = fn.id if isinstance(fn, ast.Name) else (fn.attr if isinstance(fn, ast.Attribute) else '')
+            if nm_ in ('defaultdict', 'Counter', 'deque', 'OrderedDict') and all(
+                    (isinstance(a, ast.Name) and a.id in ('list', 'int', 'set', 'dict', 'float', 'str', 'tuple', 'bool'))
+                    or (isinstance(a, ast.Lambda) and isinstance(a.body, (ast.List, ast.Dict, ast.Set, ast.Constant, ast.Tuple)) and not any(isinstance(y, ast.Name) for y in ast.walk(a.body)))
+                    for a in e.args) and not e.keywords:
+                return FRESH_DEEP   # an empty collection whose slots are created by its own factory (contents: see with_contents)
             return FRESH            # library call (LpVariable(...), datetime.now(), np...) -> a new object
         if isinstance(e, ast.Starred):
             return self.prov(e.value, depth + 1)
